@@ -941,6 +941,57 @@ func checkC12(c *Ctx) {
 		})
 		c.Floor("concurrent_writes_of_one_name", 1000)
 	}
+	// a directory of the list comes and goes (renamed away and back) while the cache is
+	// refreshed and asked: what the other, untouched directory defines is there in every
+	// answer (a scan that loses a directory half way still covers the directories after it)
+	if c.replayCase == "" || strings.HasPrefix(c.replayCase, "flicker") {
+		c.RunCases("flicker", c.pick(4, 24), 4, func(cs *Case) {
+			r := cs.R
+			root := filepath.Join(c.Scratch, sanitize(cs.Name))
+			etc, run := filepath.Join(root, "etc"), filepath.Join(root, "run")
+			must(os.MkdirAll(etc, 0o755))
+			must(os.MkdirAll(run, 0o755))
+			defer os.RemoveAll(root)
+			for i := 0; i < 3; i++ {
+				must(os.WriteFile(filepath.Join(etc, fmt.Sprintf("e%d.json", i)), specBytes(c12VersionSpec(100+i), "json"), 0o644))
+			}
+			must(os.WriteFile(filepath.Join(run, "stable.json"), []byte(`{"cdiVersion":"0.6.0","kind":"stable.org/dev","devices":[{"name":"s","containerEdits":{"env":["S=1"]}}]}`), 0o644))
+			auto := chance(r, 35)
+			cache, _ := cdi.NewCache(cdi.WithSpecDirs(etc, run), cdi.WithAutoRefresh(auto))
+			defer releaseCache(cache)
+			stop := make(chan struct{})
+			var wg sync.WaitGroup
+			wg.Add(1)
+			go func() {
+				defer wg.Done()
+				for {
+					select {
+					case <-stop:
+						os.Rename(etc+".away", etc)
+						return
+					default:
+					}
+					os.Rename(etc, etc+".away")
+					os.Rename(etc+".away", etc)
+				}
+			}()
+			bad := ""
+			for i := 0; i < c.pick(3000, 15000) && bad == ""; i++ {
+				if !auto || i%8 == 0 {
+					cache.Refresh()
+				}
+				if cache.GetDevice("stable.org/dev=s") == nil {
+					bad = fmt.Sprintf("after %d refreshes GetDevice(stable.org/dev=s) = nil (errors %v)", i, cache.GetErrors())
+				}
+				c.Count("queries_while_a_directory_comes_and_goes", 1)
+			}
+			close(stop)
+			wg.Wait()
+			if bad != "" {
+				cs.Violation("snapshot", map[string]string{"shape": "flickering-directory", "auto": fmt.Sprint(auto)}, "a lower-priority directory is renamed away and back in a loop; the device of the untouched higher-priority directory: "+bad, nil)
+			}
+		})
+	}
 	// a cache constructed while its directory changes: the change is made from inside
 	// the constructor's own scan, and the constructor then lingers a moment, so that
 	// the watcher goroutine it has already started gets the event while the
